@@ -21,13 +21,20 @@ func init() { Register(c13{}) }
 func (c13) ID() string    { return "C13" }
 func (c13) Level() string { return "exploration" }
 func (c13) Rule() string {
-	return "unsupported kinds {chan, func, complex64, complex128, uintptr, unsafe.Pointer, slices/maps/pointers/arrays/structs holding them} substituted at every position class {top, struct field (typed and interface-typed), list element first/middle/last, map key, map value, nested to depth 4, typed containers} through ToBytes, Encoder.WriteObject and Serializer.ToBytes. Oracle: the encode call must return a non-nil error and must not panic; the sibling value with the bad sub-value replaced by a supported one must encode and satisfy C02's wire oracle. Non-trivial = every case (a bad value at a position); distinct by (kind, position, entry point)."
+	return "unsupported kinds {chan, func, complex64, complex128, uintptr, unsafe.Pointer, slices/maps/pointers/arrays/structs holding them} substituted at every position class {top, struct field (typed and interface-typed), list element first/middle/last, element of a long typed list of structs, field with a non-ASCII name, map key, map value, nested to depth 4, typed containers} through ToBytes, Encoder.WriteObject and Serializer.ToBytes. Oracle: the encode call must return a non-nil error and must not panic; the sibling value with the bad sub-value replaced by a supported one must encode and satisfy C02's wire oracle. Non-trivial = every case (a bad value at a position); distinct by (kind, position, entry point)."
 }
 
 type Carrier struct {
 	A int32
 	X interface{}
 	Z string
+}
+
+// CarrierU: the interface-typed field has a name that starts with a non-ASCII capital letter
+type CarrierU struct {
+	A   int32
+	Ünï interface{}
+	Z   string
 }
 
 type BadChanStruct struct {
@@ -134,6 +141,25 @@ func badPositions() []badPos {
 		}},
 		{"nested4", false, func(b interface{}) interface{} {
 			return &Carrier{X: map[string]interface{}{"a": []interface{}{&Carrier{A: 4, X: b}}}}
+		}},
+		{"field-nonascii-name", false, func(b interface{}) interface{} { return &CarrierU{A: 1, Ünï: b, Z: "z"} }},
+		{"elem-of-long-typed-list", false, func(b interface{}) interface{} {
+			// a typed list (its type is in the extracted name map) of more than 7 elements; the bad
+			// value sits inside one of the struct elements
+			l := make([]*Carrier, 12)
+			for i := range l {
+				l[i] = &Carrier{A: int32(i), X: "ok", Z: "z"}
+			}
+			l[9].X = b
+			return l
+		}},
+		{"elem-of-long-typed-list-by-value", false, func(b interface{}) interface{} {
+			l := make([]Carrier, 300)
+			for i := range l {
+				l[i] = Carrier{A: int32(i), X: int32(i)}
+			}
+			l[288].X = b
+			return l
 		}},
 		{"inside-zoo-slice", false, func(b interface{}) interface{} {
 			return &zoo.SlIface{V: []interface{}{"a", b, int32(2)}}
